@@ -1143,8 +1143,12 @@ func (e *Exec) isSyncCall(c *ssa.CallCommon) bool {
 	case "AcceptTCP", "verifDialTCP", "verifYield":
 		return true
 	}
-	if callee.Pkg != nil {
-		switch callee.Pkg.Pkg.Path() {
+	pkg := callee.Pkg
+	if pkg == nil && callee.Origin() != nil {
+		pkg = callee.Origin().Pkg // instantiations of generic methods (atomic.Pointer[T])
+	}
+	if pkg != nil {
+		switch pkg.Pkg.Path() {
 		case "sync", "sync/atomic":
 			return true
 		}
